@@ -90,11 +90,26 @@ static SolveResult solveChecked(const OracleCtx &c, const ob::PlannerPtr &planne
 // ------------------------------------------------------------------------------------------------------
 // C01
 // ------------------------------------------------------------------------------------------------------
+static long g_c01MainCases = 0;
+// rewiring planners that are usable in direction-dependent spaces (the direction block of C01)
+static const std::vector<const PInfo *> &dirOptPlanners()
+{
+    static std::vector<const PInfo *> v;
+    if (v.empty())
+        for (auto &p : registry())
+            if (p.optimizing && supports(p, K_DUBINS)) v.push_back(&p);
+    return v;
+}
 static void c01(Sink &sink, const Args &a, long c)
 {
     const auto &R = registry();
-    const PInfo &pi = R[c % R.size()];
-    long widx = c / R.size();
+    // direction block (cases after the main block): rewiring planners on cluttered, tight-turn Dubins worlds with a full budget.
+    // A mix-up between the motion that is validated and the motion that is inserted shows only when a rewired edge whose
+    // reverse is valid and whose forward curve collides ends up on the solution path: rare per world, hence many worlds.
+    const bool dirBlock = c >= g_c01MainCases;
+    const auto &DP = dirOptPlanners();
+    const PInfo &pi = dirBlock ? *DP[(c - g_c01MainCases) % DP.size()] : R[c % R.size()];
+    long widx = dirBlock ? 1000000 + (c - g_c01MainCases) / (long)DP.size() : c / (long)R.size();
     // world kinds cycle; every third world has hostile inputs
     // planners that only build forward motions get the direction-dependent spaces in 4 of 10 worlds; the others never
     static const int KINDS_DIR[] = {K_DUBINS, K_R2, K_RS, K_SE2, K_DUBINS, K_R3, K_CMP, K_DUBINS, K_SE3, K_R6};
@@ -105,6 +120,7 @@ static void c01(Sink &sink, const Args &a, long c)
     int kind = supports(pi, K_DUBINS) ? (pi.optimizing ? KINDS_DIROPT[widx % 10] : KINDS_DIR[widx % 10]) : KINDS_SYM[widx % 10];
     if (a.get("kind") != "") kind = atoi(a.get("kind").c_str());
     bool hostile = (widx % 3) == 2;
+    if (dirBlock) kind = K_DUBINS, hostile = false;
     if (!supports(pi, kind))
     {
         sink.noteCase(0, false);
@@ -113,9 +129,10 @@ static void c01(Sink &sink, const Args &a, long c)
     }
     uint64_t wseed = hmix(hmix(splitmix(a.seed), 0xC01), widx);
     ompl::RNG::setSeed(caseSeed(a, c, 1) % 1000000000ULL + 1);
-    auto w = makeWorld(wseed, kind, hostile);
+    auto w = makeWorld(wseed, kind, hostile, dirBlock ? -2 : -1);
     Rng rng(caseSeed(a, c));
     sink.subject(pi.name);
+    if (dirBlock) sink.count("direction_block_cases");
     OracleCtx ctx{sink, *w, pi, "C01", ""};
     ob::PlannerPtr planner;
     auto pdef = makePdef(*w);
@@ -134,7 +151,7 @@ static void c01(Sink &sink, const Args &a, long c)
     }
     long budget = (long)(pi.budget * (kind == K_R6 || kind == K_SE3 ? 1.5 : 1.0));
     // every fourth world is cut short (5 .. 300 evaluations): that is where approximate solutions come from
-    if (widx % 4 == 1)
+    if (widx % 4 == 1 && !dirBlock)
     {
         budget = (long)rng.logUni(5, 300);
         sink.count("cases_with_short_budget");
@@ -1015,7 +1032,12 @@ int main(int argc, char **argv)
     long total = 0;
     void (*fn)(Sink &, const Args &, long) = nullptr;
     const long NP = registry().size();
-    if (a.prop == "C01") total = NP * (a.thorough() ? 90 : 14), fn = c01;
+    if (a.prop == "C01")
+    {
+        g_c01MainCases = (long)(NP * (a.thorough() ? 90 : 14) * a.scale);
+        total = g_c01MainCases + (long)(dirOptPlanners().size() * (a.thorough() ? 200 : 40) * a.scale);
+        fn = c01;
+    }
     else if (a.prop == "C03") total = NP * ((a.thorough() ? 33 * 3 : 9 * 2) + (a.thorough() ? 60 : 12)), fn = c03;
     else if (a.prop == "C04")
     {
@@ -1035,7 +1057,7 @@ int main(int argc, char **argv)
         fprintf(stderr, "h_planners does not serve %s\n", a.prop.c_str());
         return 2;
     }
-    if (a.prop != "C04") total = (long)(total * a.scale);
+    if (a.prop != "C04" && a.prop != "C01") total = (long)(total * a.scale);
     const bool freshProcessPerCase = a.prop == "C20" && a.onlyCase < 0;
     for (long c = 0; c < total; ++c)
     {
